@@ -1045,11 +1045,7 @@ Lemma do_parse_valid c0 toks m' : do_parse c0 toks = OOk m' -> valid c0 = true.
 Proof. unfold do_parse. destruct (valid c0); [reflexivity|discriminate]. Qed.
 
 Lemma post_err_never_ok c e x st : post c (RErr e x) = ROk st -> False.
-Proof.
-  cbn [post]. destruct (is_set s_ignore_errors c); [|discriminate].
-  destruct (add_env c x) as [s1|e1 s1|x1]; [| |discriminate];
-    (destruct (add_defaults c s1) as [s2|e2 s2|x2]; discriminate).
-Qed.
+Proof. intros H. exact (post_err_not_ok c e x st H). Qed.
 
 (** a successful level that selected a subcommand ran the validity gate on the lazily built child *)
 Lemma gmw_child_assert f c toks st0 st name keep vaf st1 rest sc0 sc :
